@@ -19,19 +19,25 @@ type tagMacroNode struct {
 
 func (node *tagMacroNode) Execute(ctx *ExecutionContext, writer TemplateWriter) *Error {
 	ctx.Private[node.name] = func(args ...*Value) (*Value, error) {
-		ctx.macroDepth++
-		defer func() {
-			ctx.macroDepth--
-		}()
-
-		if ctx.macroDepth > maxMacroDepth {
-			return nil, ctx.Error(fmt.Sprintf("maximum recursive macro call depth reached (max is %v)", maxMacroDepth), node.position)
-		}
-
-		return node.call(ctx, args...)
+		return node.callGuarded(ctx, args...)
 	}
 
 	return nil
+}
+
+// callGuarded calls the macro in ctx and bounds the depth of nested macro calls
+// made through ctx (used for locally defined and for imported macros).
+func (node *tagMacroNode) callGuarded(ctx *ExecutionContext, args ...*Value) (*Value, error) {
+	ctx.macroDepth++
+	defer func() {
+		ctx.macroDepth--
+	}()
+
+	if ctx.macroDepth > maxMacroDepth {
+		return nil, ctx.Error(fmt.Sprintf("maximum recursive macro call depth reached (max is %v)", maxMacroDepth), node.position)
+	}
+
+	return node.call(ctx, args...)
 }
 
 func (node *tagMacroNode) call(ctx *ExecutionContext, args ...*Value) (*Value, error) {
